@@ -1,6 +1,7 @@
 SPECIFICATION Spec
 CONSTANTS Routers <- AllRouters
           Actors <- AllActors
+          ExtraActors = {"op1", "op4"}
           CtxDepth = 2
           EmitOn = TRUE
 INVARIANT PropC18
